@@ -35,7 +35,12 @@ PID = 'C13'
 A13 = ['-Ia', '-Ib', '-La', '-Lb', '-DX', '-UX', '-isystem/usr/include', '-lfoo', 'libx.a', '-pthread', '-O2',
        '-Wl,--as-needed', '-I']
 EXTRA = ['/abs/liby.a', '/abs/o.o', '-lm', '-isystem', '/usr/include', '-isystem=/usr/include', '-isystemq',
-         '-Wl,-rpath,/x', '/opt/libz.so.1.2', '-D', 'x.c', '-Wl,-lbar', '-c', '-DY=1', '-L']
+         '-Wl,-rpath,/x', '/opt/libz.so.1.2', '-D', 'x.c', '-Wl,-lbar', '-c', '-DY=1', '-L',
+         '-U', '-l', '-Wl,-rpath,', 'FOO=1', 'BAR=2', '/q/inc']
+# two-token spellings: a bare prefix token is an ordinary non-dedupable argument defined by what follows it
+BARE_PAIRS = [['-D', 'FOO=1', '-D', 'BAR=2'], ['-U', 'FOO', '-U', 'BAR'], ['-isystem', '/q/inc', '-isystem', '/r/inc'],
+              ['-I', 'inc1', '-I', 'inc2'], ['-L', 'd1', '-L', 'd2'], ['-l', 'a', '-l', 'b'],
+              ['-Wl,-rpath,', '/x', '-Wl,-rpath,', '/y'], ['-D', 'FOO=1'], ['-isystem', '/q/inc']]
 R6 = ['-Ia', '-Ib', '-DX', '-lfoo', '-O2', '-I']
 R3 = ['-Ia', '-Ib', '-DX']
 
@@ -52,6 +57,8 @@ def full_ops() -> T.List[list]:
             ['extend_direct', ['/abs/liby.a', '-lfoo']]]
     ops += [['insert', i, a] for i in (0, 1) for a in ('-Ia', '-DX', '-O2')]
     ops += [['del', 0], ['del', -1], ['set', 0, '-DX']]
+    ops += [['iadd', list(b)] for b in BARE_PAIRS]
+    ops += [['extend_direct', ['-La', '-lfoo', '-lfoo', '-Lb']], ['factory_copy']]
     ops += [['copy'], ['fork'], ['init_from'], ['add', ['-Ib', '-DX']], ['radd', ['-Ib', '-DX']], ['epl', ['-lm', '-lfoo', '-La', '-DX']]]
     ops += READ_OPS
     return ops
@@ -62,6 +69,7 @@ def small_ops() -> T.List[list]:
     ops += [['iadd', ['-Ia', '-Ib']], ['iadd', ['-DX', '-Ia']], ['iadd', ['-lfoo', '-DX']]]
     ops += [['insert', 0, '-Ia'], ['insert', 1, '-DX'], ['append_direct', '-Ia'], ['copy']]
     ops += [['iter'], ['getitem', 0], ['len'], ['to_native', True]]
+    ops += [['iadd', ['-D', 'FOO=1', '-D', 'BAR=2']], ['factory_copy']]
     return ops
 
 
@@ -84,7 +92,10 @@ def fakes() -> T.Dict[str, T.Any]:
         def __init__(self) -> None:
             pass
 
-    class FakeCompiler(compilers.Compiler):               # type: ignore[misc]
+    from mesonbuild.compilers.mixins.clike import CLikeCompiler
+
+    class FakeCompiler(CLikeCompiler, compilers.Compiler):   # type: ignore[misc]
+        # compiler_args() is the REAL factory of CLikeCompiler
         def __init__(self, name: str, linker: T.Any, dirs: T.List[str]) -> None:
             self._name = name
             self.linker = linker
@@ -101,7 +112,11 @@ def fakes() -> T.Dict[str, T.Any]:
 
     FakeCompiler.__abstractmethods__ = frozenset()        # type: ignore[misc]
 
-    class FakeStaticLinker:
+    class FakeStaticLinker(linkers.StaticLinker):          # type: ignore[misc]
+        # compiler_args() is the REAL factory of StaticLinker
+        def __init__(self) -> None:
+            pass
+
         def unix_args_to_native(self, args: T.List[str]) -> T.List[str]:
             return list(args)
 
@@ -214,6 +229,18 @@ def apply_op(obj: T.Any, op: list, kind: str) -> T.Any:
             obj += other
         elif name == 'init_from':
             obj = type(obj)(obj.compiler, obj)
+        elif name == 'factory_copy':
+            # a copy through the compiler's factory must equal the original (initial arguments are taken verbatim)
+            sh = S.shadow_of(obj, adopt=False)
+            want = list(sh.ref.items) if sh else None
+            c = obj.compiler.compiler_args(obj)
+            got = S._real_list(c)
+            S.STATE.count('read:factory-copy')
+            if want is not None and got != want:
+                S._violate('factory-copy-differs-from-original:' + S.classify_list_diff(sh.ref.t, got, want), sh,
+                           'compiler.compiler_args(args)', got, want)
+            if type(c) is type(obj):
+                obj = c
         else:
             raise AssertionError('unknown op ' + name)
     except (IndexError, ValueError):
@@ -318,6 +345,8 @@ def random_op(rng: random.Random, alphabet: T.List[str]) -> list:
     def batch(lo: int = 0, hi: int = 4) -> T.List[str]:
         return [arg() for _ in range(rng.randint(lo, hi))]
     r = rng.random()
+    if r < 0.03:
+        return [rng.choice(['iadd', 'extend', 'extend_direct', 'epl']), list(rng.choice(BARE_PAIRS))]
     if r < 0.30:
         return ['iadd', batch(1, 4)]
     if r < 0.36:
@@ -350,6 +379,8 @@ def random_op(rng: random.Random, alphabet: T.List[str]) -> list:
         return ['radd', batch()]
     if r < 0.73:
         return ['iadd_other', batch(0, 3), batch(0, 3)]
+    if r < 0.735:
+        return ['factory_copy']
     if r < 0.74:
         return ['init_from']
     if r < 0.79:
@@ -466,6 +497,9 @@ DOC_EXAMPLES = [
 ]
 
 PROBES = [
+    ('two-token-define-spelling', 'gnu', [], [['iadd', ['-D', 'FOO=1', '-D', 'BAR=2']], ['iter'], ['iadd', ['-isystem', '/q', '-isystem', '/r']]]),
+    ('factory-copy-of-directly-built-list', 'gnu', ['-Iinc', '-O2'],
+     [['extend_direct', ['-L/opt/a', '-la', '-lz', '-L/opt/b', '-lb', '-lz']], ['factory_copy']]),
     # (name, kind, initial, ops): sequences that exhibit the recorded findings; re-observed every run
     ('len-after-duplicate-override', 'gnu', ['-DX'], [['iadd', ['-DX']], ['len']]),
     ('reversed-after-duplicate-override', 'gnu', ['-DX'], [['iadd', ['-DX']], ['reversed']]),
@@ -667,7 +701,39 @@ def gen_project(rng: random.Random, idx: int) -> dict:
     for i, d in enumerate(iseq):
         mb.append(f"ni{i} = declare_dependency(include_directories: include_directories('{d}'))")
     mb.append(f"nexe2 = executable('nexe2', 'n.c', dependencies: [{', '.join(f'ni{i}' for i in range(len(iseq)))}])")
+    # link arguments of the dependencies: -L/-l sets are kept as given (no reordering, repeated -l kept)
+    lpool = [['-L/opt/zq_a', '-lzq_a', '-lzq_shared'], ['-L/opt/zq_b', '-lzq_b', '-lzq_shared'],
+             ['-lzq_a', '-L/opt/zq_a', '-lzq_a'], ['-Wl,-rpath,/opt/zq', '-lzq_c', '-L/opt/zq_a', '-lm']]
+    lseq = [list(rng.choice(lpool)) for _ in range(rng.randint(2, 4))]
+    if rng.random() < 0.7:
+        lseq = [list(lpool[0]), list(lpool[1])] + lseq[:1]
+    for i, la in enumerate(lseq):
+        mb.append(f"nl{i} = declare_dependency(link_args: [{q(la)}])")
+    mb.append(f"nexe3 = executable('nexe3', 'main.c', dependencies: [{', '.join(f'nl{i}' for i in range(len(lseq)))}]"
+              f"{', link_with: l2' if rng.random() < 0.5 else ''})")
+    # several languages: arguments registered for ['c', 'cpp'], then for one language, then for both again
+    multi: T.Optional[dict] = None
+    if rng.random() < 0.5:
+        cflags = ['-ftrapv', '-fno-builtin', '-fno-ident', '-fno-plt', '-DZL1', '-DZL2', '-UZL1', '-DZL3=1']
+        lflags = ['-Wl,-z,now', '-Wl,-z,relro', '-Wl,--warn-common', '-Wl,--hash-style=gnu', '-Wl,-z,noexecstack', '-Wl,--sort-common']
+        multi = {}
+        head: T.List[str] = []
+        for fn, pool_ in (('add_global_arguments', cflags), ('add_project_arguments', cflags), ('add_project_link_arguments', lflags)):
+            calls = []
+            langsets = [['c', 'cpp']] + [rng.choice([['c'], ['cpp'], ['c', 'cpp'], ['cpp', 'c']]) for _ in range(rng.randint(1, 2))] + [['c', 'cpp']]
+            if rng.random() < 0.2:
+                rng.shuffle(langsets)
+            for ls in langsets:
+                args_ = [rng.choice(pool_) for _ in range(rng.randint(1, 3))]
+                calls.append({'languages': ls, 'args': args_})
+                head.append(f"{fn}({q(args_)}, language: [{q(ls)}])")
+            multi[fn] = calls
+        mb[0] = mb[0].replace("'c',", "'c', 'cpp',", 1)
+        mb[1:1] = head
+        mb.append("zc = executable('zc', 'zc.c')")
+        mb.append("zcpp = executable('zcpp', 'zcpp.cpp')")
     files: T.Dict[str, str] = {'meson.build': '\n'.join(mb) + '\n',
+                               'zc.c': 'int main(void) { return 0; }\n', 'zcpp.cpp': 'int main() { return 0; }\n',
                                'n.c': '#include <which.h>\nint main(void) { return WHICH; }\n',
                                'ninc_a/which.h': '#define WHICH 1\n', 'ninc_b/which.h': '#define WHICH 2\n',
                                'ninc_c/which.h': '#define WHICH 3\n',
@@ -694,10 +760,10 @@ def gen_project(rng: random.Random, idx: int) -> dict:
         argv.append('-Db_pie=true')
     if rng.random() < 0.3:
         argv.append('-Dc_std=' + rng.choice(['c99', 'gnu11']))
-    return {'idx': idx, 'files': files, 'argv': argv, 'macros': per_level_macro, 'nseq': nseq, 'iseq': iseq, 'tdirs': tdirs, 'ddirs': ddirs,
+    return {'idx': idx, 'files': files, 'argv': argv, 'macros': per_level_macro, 'nseq': nseq, 'iseq': iseq, 'lseq': lseq, 'multi': multi, 'tdirs': tdirs, 'ddirs': ddirs,
             'sdirs': sdirs, 'dup_dir': dup_dir, 'use_sub': use_sub, 'global_args': level_args['G'],
             'project_args': level_args['P'], 'features': sorted(
-                [f'lib:{libkind}'] + (['subproject'] if use_sub else []) + (['two-deps'] if two_deps else []) +
+                [f'lib:{libkind}'] + (['c+cpp'] if multi else []) + (['subproject'] if use_sub else []) + (['two-deps'] if two_deps else []) +
                 (['dup-include-dir'] if dup_dir else []) + (['dep-isystem'] if dsys else []) +
                 (['isystem'] if sdirs else []) + [a.split('=')[0] for a in argv[2:]])}
 
@@ -719,6 +785,27 @@ def parse_compile_statements(text: str) -> T.Dict[str, T.List[str]]:
         elif not line.startswith(' '):
             cur = None
     return out
+
+
+def parse_statements(text: str) -> T.List[T.Tuple[str, str, T.Dict[str, T.List[str]]]]:
+    """[(first output, rule, {variable: tokens})] of every build statement (simple text parse)."""
+    res: T.List[T.Tuple[str, str, T.Dict[str, T.List[str]]]] = []
+    cur: T.Optional[T.Dict[str, T.List[str]]] = None
+    for line in text.splitlines():
+        if line.startswith('build '):
+            m = re.match(r'build (\S+)[^:]*: (\S+)', line)
+            cur = {} if m else None
+            if m and cur is not None:
+                res.append((m.group(1), m.group(2), cur))
+        elif cur is not None and line.startswith(' ') and ' = ' in line:
+            k, v = line.strip().split(' = ', 1)
+            try:
+                cur[k] = shlex.split(_NINJA_ESC.sub(lambda mm: mm.group(1), v))
+            except ValueError:
+                pass
+        elif not line.startswith(' '):
+            cur = None
+    return res
 
 
 def effective_macros(tokens: T.List[str]) -> T.Optional[T.Dict[str, str]]:
@@ -906,6 +993,60 @@ def check_dependency_include_dirs(proj: dict, tokens: T.List[str], bdir: str) ->
     return cnt, bad
 
 
+_ZQ_LINK = {'-L/opt/zq_a', '-L/opt/zq_b', '-lzq_a', '-lzq_b', '-lzq_c', '-lzq_shared', '-Wl,-rpath,/opt/zq'}
+_ZL_C = {'-ftrapv', '-fno-builtin', '-fno-ident', '-fno-plt', '-DZL1', '-DZL2', '-UZL1', '-DZL3=1'}
+_ZL_L = {'-Wl,-z,now', '-Wl,-z,relro', '-Wl,--warn-common', '-Wl,--hash-style=gnu', '-Wl,-z,noexecstack', '-Wl,--sort-common'}
+
+
+def check_dependency_link_args(proj: dict, link_tokens: T.List[str]) -> T.Tuple[T.Dict[str, int], T.List[T.Tuple[str, dict]]]:
+    """nexe3: link_args of the dependencies are added in listed order "without reordering or de-dup to preserve
+    `-L -l` sets" (ninjabackend.generate_link, meson issue 1718): eager expectation of the increments named in the
+    project description."""
+    cnt = {'e2e:dependency-link-args': 1}
+    bad: T.List[T.Tuple[str, dict]] = []
+    ref = refargs.RefArgs(refargs.CLIKE)
+    for inc in proj['lseq']:
+        ref.extend_preserving_lflags(list(inc))
+    expected = [t for t in ref.items if t in _ZQ_LINK]
+    observed = [t for t in link_tokens if t in _ZQ_LINK]
+    if observed != expected:
+        bad.append(('e2e-dependency-link-args-differ-from-eager:' + S.classify_list_diff(refargs.CLIKE, observed, expected),
+                    {'observed': observed, 'expected': expected, 'increments': proj['lseq'], 'LINK_ARGS': link_tokens}))
+    return cnt, bad
+
+
+def check_language_args(proj: dict, lang: str, tokens: T.List[str], link_tokens: T.Optional[T.List[str]]) -> T.Tuple[T.Dict[str, int], T.List[T.Tuple[str, dict]]]:
+    """zc / zcpp: a compile (link) line of language L carries exactly the arguments of the calls that named L, in
+    call order, project arguments before global ones (each kind arrives as one increment)."""
+    cnt: T.Dict[str, int] = {}
+    bad: T.List[T.Tuple[str, dict]] = []
+    multi = proj['multi']
+
+    def named(fn: str) -> T.List[str]:
+        return [a for call in multi[fn] if lang in call['languages'] for a in call['args']]
+    if link_tokens is None:
+        ref = refargs.RefArgs(refargs.CLIKE)
+        ref.add_batch(named('add_project_arguments'))
+        ref.add_batch(named('add_global_arguments'))
+        expected = list(ref.items)
+        observed = [t for t in tokens if t in _ZL_C]
+        cnt['e2e:per-language-compile-args'] = 1
+        if observed != expected:
+            bad.append((f'e2e-per-language-arguments-differ:{lang}:' + S.classify_list_diff(refargs.CLIKE, observed, expected),
+                        {'language': lang, 'observed': observed, 'expected': expected, 'calls': multi, 'ARGS': tokens}))
+    else:
+        ref = refargs.RefArgs(refargs.CLIKE)
+        ref.add_batch(named('add_project_link_arguments'))
+        expected = list(ref.items)
+        observed = [t for t in link_tokens if t in _ZL_L]
+        cnt['e2e:per-language-link-args'] = 1
+        if observed != expected:
+            bad.append((f'e2e-per-language-link-arguments-differ:{lang}:' + S.classify_list_diff(refargs.CLIKE, observed, expected),
+                        {'language': lang, 'observed': observed, 'expected': expected,
+                         'calls': multi['add_project_link_arguments'], 'LINK_ARGS': link_tokens}))
+    return cnt, bad
+
+
 def run_project(proj: dict, root: T.Optional[str] = None) -> dict:
     """One real `meson setup` with the shadow installed + the end-to-end checks. Plain data out."""
     own = root is None
@@ -937,7 +1078,28 @@ def run_project(proj: dict, root: T.Optional[str] = None) -> dict:
         if not got_counters:
             res['status'] = 'no-counters'
         with open(os.path.join(src, 'build', 'build.ninja'), encoding='utf-8') as f:
-            stmts = parse_compile_statements(f.read())
+            ninja_text = f.read()
+        stmts = parse_compile_statements(ninja_text)
+        extra: T.List[T.Tuple[T.Dict[str, int], T.List[T.Tuple[str, dict]], str]] = []
+        for out, rule, var in parse_statements(ninja_text):
+            if rule.endswith('_LINKER') and 'LINK_ARGS' in var:
+                if out == 'nexe3':
+                    extra.append(check_dependency_link_args(proj, var['LINK_ARGS']) + (out,))
+                elif out in ('zc', 'zcpp') and proj.get('multi'):
+                    lang = 'c' if out == 'zc' else 'cpp'
+                    if rule != f'{lang}_LINKER':
+                        res['viol'].append(('harness:unexpected-linker-rule', {'statement': out, 'rule': rule}))
+                    extra.append(check_language_args(proj, lang, [], var['LINK_ARGS']) + (out,))
+            elif rule.endswith('_COMPILER') and 'ARGS' in var and proj.get('multi') and out.split('/')[0] in ('zc.p', 'zcpp.p'):
+                lang = 'c' if out.startswith('zc.p') else 'cpp'
+                extra.append(check_language_args(proj, lang, var['ARGS'], None) + (out,))
+        for cnt, bad, out in extra:
+            for k, v in cnt.items():
+                res['counters'][k] = res['counters'].get(k, 0) + v
+            for mech, w in bad:
+                w = dict(w)
+                w['statement'] = out
+                res['viol'].append((mech, w))
         res['counters']['e2e:compile-statements'] = len(stmts)
         for out, tokens in stmts.items():
             private_dir = out.split('/')[0]
@@ -1148,7 +1310,8 @@ def main() -> int:
 
     # ---- deciding monitors -------------------------------------------------------------------------
     chk.require('probe:doc-example', 3)
-    chk.require('probe:known-finding-sequence', 3)
+    chk.require('probe:known-finding-sequence', 5)
+    chk.require('read:factory-copy', 1)
     chk.require('exhaustive:sequences', 50000 if quick else 300000)
     chk.require('random:sequences', 3000 if quick else 20000)
     for m in ('read:__iter__', 'read:__getitem__', 'read:__len__', 'read:__eq__', 'read:to_native', 'read:__repr__',
@@ -1162,7 +1325,8 @@ def main() -> int:
     for m in ('meson:compare:full-list', 'meson:read:to_native', 'meson:op:__iadd__', 'meson:op:extend_preserving_lflags',
               'e2e:define-order-pairs', 'e2e:effective-macro', 'e2e:override-dedup', 'e2e:include-order-pairs',
               'e2e:isystem-order-pairs', 'e2e:include-private-dir-first', 'e2e:dependency-increments',
-              'e2e:dependency-include-dirs', 'e2e:dependency-effective'):
+              'e2e:dependency-include-dirs', 'e2e:dependency-effective', 'e2e:dependency-link-args',
+              'e2e:per-language-compile-args', 'e2e:per-language-link-args'):
         chk.require(m, 1)
     if chk.counters.get('shadow:adopted', 0):
         chk.notes['adopted_in_process'] = chk.counters['shadow:adopted']
@@ -1187,6 +1351,9 @@ def main() -> int:
             'compile_args of the dependencies of a target are increments added in reversed listed order, so the first '
             'listed dependency has the highest precedence (comment in generate_basic_compiler_args); the expected '
             'sequence of increments is taken from the project description, not from the += calls observed',
+            'link_args of dependencies are added in listed order without reordering or de-dup of -L/-l sets (comment in '
+            'generate_link); add_*_arguments(language: [...]) registers the arguments for exactly the named languages '
+            '(docs/yaml/functions/add_global_arguments.yaml)',
             'POSIX paths, gcc-like C compiler with a GNU-like linker; D/other CompilerArgs subclasses are not shadowed',
         ],
         exhaustive=exhaustive_complete,
